@@ -47,7 +47,7 @@ func init() {
 		Scens:     []scenBudget{{"nitro", 12000, 400000}, {"nitro_gc", 6000, 200000}, {"nitro_iter", 6000, 200000}},
 		Rule:      nitroRule("2-8 phases of 1-4 writers, snapshot at every phase barrier, readers scanning any open snapshot with hand-held iterators (refresh rate, explicit Refresh), Seek-then-scan, Visitor, Count while writers, closers (any close order) and GC/free workers run, application NodeList chaining in 30% of the runs, owners re-scan each snapshot right before closing it; oracle: every completed scan == frozen model content"),
 		Real:      nReal, Stubbed: nStub, Assume: nAssume,
-		WarnProbe: []string{"snapshots"},
+		WarnProbe: []string{"snapshots", "late_scans"},
 	})
 	defCheck(&checkDef{Prop: "C02", Level: "exploration",
 		Scens:  []scenBudget{{"nitro_seq", 20000, 600000}, {"nitro", 6000, 200000}},
@@ -72,6 +72,7 @@ func init() {
 		Scens:  []scenBudget{{"nitro", 10000, 300000}, {"nitro_gc", 6000, 200000}, {"nitro_race", 6000, 200000}},
 		Rule:   nitroRule("any nitro history in user-managed-memory mode run to the end: all iterators and snapshots closed, optionally a burst of concurrent same-epoch put/delete pairs by every writer, then Nitro.Close as a task; oracle: guard allocator live set empty, no double/unknown free, barrier queue empty") + "; runs drawn with Go-managed memory exercise the same schedule space without the allocator oracle",
 		Real:   nReal, Stubbed: nStub, Assume: nAssume,
+		WarnProbe: []string{"bursts"},
 	})
 	defCheck(&checkDef{Prop: "C09", Level: "exploration",
 		Scens:  []scenBudget{{"nitro_iter", 18000, 700000}, {"backup", 3000, 100000}},
